@@ -103,8 +103,13 @@ def relate(tape, code, relation):
 
 
 def configs(tier):
+    # the ninth: different codes on one nameplate, a third party knocking
+    # (crowded), connection losses only - the verdict must stay
+    # WrongPasswordError whatever else the server says meanwhile
     return [{"spake": "real", "reorder_heavy": i % 2 == 1, "faults": i % 4 != 0}
-            for i in range(8)]
+            for i in range(8)] + \
+        [{"spake": "real", "faults": True, "focus": "crowded_mismatch"},
+         {"spake": "stub", "faults": True, "focus": "crowded_mismatch"}]
 
 
 def _payload(tape, who, i):
@@ -123,6 +128,9 @@ def run_one(seed, tape, opts):
     w = MailboxWorld(tape, opts)
     sim = w.sim
     relation = tape.pick(RELATIONS, "relation")
+    focus = opts.get("focus")
+    if focus == "crowded_mismatch":
+        relation = tape.pick(("char", "insert", "delete", "case"), "rel_f")
     base = "%d-%s-%s" % (1 + tape.choose(60, "np"), tape.pick(WORDS, "w1"),
                          tape.pick(WORDS + ("fig",), "w2"))
     shape = tape.choose(8, "shape")
@@ -184,17 +192,21 @@ def run_one(seed, tape, opts):
                      ("close",)]
     c3 = None
     if not match and same_mailbox and appid_a == appid_b and \
-            tape.choose(3, "third") == 0:
+            (tape.choose(3, "third") == 0 or focus == "crowded_mismatch"):
         # a third party tries the same nameplate with yet another code: the
         # server admits two sides and answers the third with 'crowded'
         c3 = w.add_client("C", appid=appid_a, api="deferred",
                           versions={"who": "C"})
-        c3.script = [("wait_steps", tape.choose(60, "c3w")),
+        c3.script = [("wait_steps", tape.choose(60, "c3w") if not focus else
+                      tape.choose(12, "c3w_f")),
                      ("set_code", code_a.split("-")[0] + "-zz-top"),
                      ("wait_event_or_steps", "closed",
                       200 + tape.choose(300, "c3v")),
                      ("close",)]
-    if opts.get("faults", True):
+    if focus == "crowded_mismatch":
+        ca.pick_faults(tape, w, ("cut", "stall"), 5)
+        w.fault_budget = max(w.fault_budget, 3)
+    elif opts.get("faults", True):
         ca.pick_faults(tape, w, ("cut", "server_restart", "mbox_dup",
                                  "mbox_reorder", "mbox_replay_stored"), 3)
     viol = []
